@@ -53,9 +53,111 @@ def multi_model_cases():
         yield dict(g=4, file=name)
 
 
+CLI_FILES = ["1A1T_1_B.cif", "1ehz-assembly-1.cif", "1ATO.pdb", "4WTI_1_T-P.cif"]
+
+
+def cli_cases(tier):
+    """annotator.main on files: what the tool writes (CSV, JSON, BPSEQ, standard output) is what the library returns for the file read with the default model.
+    Inputs: corpus files as they are; the same atoms with the only model numbered 7, with models 2 and 1 in this order, with every third residue reduced to
+    base + C1'; flags: none / -f / -a / -e. Consecutive runs write to the SAME output paths (a longer output first)."""
+    k = 0
+    for f in CLI_FILES if tier == "quick" else CLI_FILES + ["1E7K_1_C.cif", "6FC9.cif", "1JJP.cif", "184D.cif"]:
+        for variant in ("as-is", "model-7", "models-2-1", "thin-every-third"):
+            for flags in ([], ["-f"], ["-a"], ["-e"]):
+                k += 1
+                if variant != "as-is" and flags and k % 2:
+                    continue
+                yield dict(g="cli", file=f, variant=variant, flags=flags)
+
+
+def run_cli(case):
+    import contextlib
+    import io
+    import sys
+
+    from rnapolis import annotator
+    from rnapolis.parser import read_3d_structure
+
+    from mc import corpus, enumio
+    from mc.props.ann_families import _BASE_AND_C1
+
+    out = []
+    t = [dict(a) for a in corpus.table(case["file"])]
+    if corpus.has_altlocs(t):
+        t = [a for a in t if a["altloc"] in (None, "A")]
+    v = case["variant"]
+    if v == "model-7":
+        for a in t:
+            a["model"] = 7
+    elif v == "models-2-1":
+        second = [dict(a, model=1, x="%.3f" % (float(a["x"]) + 200.0)) for a in t[: len(t) // 2]]
+        for a in t:
+            a["model"] = 2
+        t = t + second
+        for i, a in enumerate(t):
+            a["serial"] = i + 1
+    elif v == "thin-every-third":
+        res = corpus.residues(t)
+        t = [a for k, (_, atoms) in enumerate(res) for a in atoms if k % 3 or a["name"] in _BASE_AND_C1]
+    fmt = "PDB" if corpus.pdb_expressible(t) and case["file"].endswith(".pdb") and not v.startswith("model") else "mmCIF"
+    sd = scratch_dir()
+    path = os.path.join(sd, "cli-in." + ("pdb" if fmt == "PDB" else "cif"))
+    with open(path, "w") as f:
+        f.write(enumio.emit_pdb(t) if fmt == "PDB" else enumio.emit_cif(t, label_differs=any(a["icode"] for a in t)))
+    with open(path) as f:
+        lib = observe(lambda: annotator.extract_secondary_structure(read_3d_structure(f, None), None, "-f" in case["flags"], "-a" in case["flags"]))
+    if lib[0] == "exc":
+        return dict(nontrivial=False, outcome="library-raises", violations=[])
+    s2d, dbs = lib[1]
+    if "-a" in case["flags"]:
+        # 'the' notation of the Structure2D is the optimal one whether or not all notations were asked for
+        with open(path) as f:
+            plain = observe(lambda: annotator.extract_secondary_structure(read_3d_structure(f, None), None, "-f" in case["flags"], False))
+        if plain[0] == "ok" and plain[1][0].dotBracket != s2d.dotBracket:
+            out.append(viol("cli:structure2d-notation-depends-on-all-flag", "%s: Structure2D.dotBracket differs between all_dot_brackets=True and False" % case["file"], s2d.dotBracket[:200], plain[1][0].dotBracket[:200]))
+    pc, pj, pb = (os.path.join(sd, "cli-out." + e) for e in ("csv", "json", "bpseq"))  # the same paths for every case of this worker
+    old = sys.argv
+    sys.argv = ["annotator", path, "-c", pc, "-j", pj, "-b", pb] + case["flags"]
+    buf = io.StringIO()
+    try:
+        with contextlib.redirect_stdout(buf), contextlib.redirect_stderr(io.StringIO()):
+            r = observe(annotator.main)
+    finally:
+        sys.argv = old
+    if r[0] == "exc" and not r[1].startswith("exception:SystemExit"):
+        return dict(nontrivial=True, outcome="cli-exc", violations=[viol("cli:" + r[1], "annotator.main raised %s (%s, %s)" % (r[2], case["file"], v))])
+    bi = s2d.baseInteractions
+    want = [[x.nt1.full_name, x.nt2.full_name, "base pair", x.lw.value, x.saenger.value if x.saenger else ""] for x in bi.basePairs]
+    want += [[x.nt1.full_name, x.nt2.full_name, "stacking", x.topology.value if x.topology else "", ""] for x in bi.stackings]
+    want += [[x.nt1.full_name, x.nt2.full_name, "base-phosphate interaction", x.bph.value if x.bph else "", ""] for x in bi.basePhosphateInteractions]
+    want += [[x.nt1.full_name, x.nt2.full_name, "base-ribose interaction", x.br.value if x.br else "", ""] for x in bi.baseRiboseInteractions]
+    try:
+        rows = list(csv.reader(open(pc)))[1:]
+    except Exception as exc:  # noqa
+        rows = "unreadable: %s" % exc
+    if rows != want:
+        out.append(viol("cli:csv-differs-from-library", "%s (%s, flags %s): the CSV written by annotator.main differs from the interactions the library returns for the file" % (case["file"], v, case["flags"]),
+                        rows[:3] if isinstance(rows, list) else rows, want[:3]))
+    try:
+        d = json.load(open(pj))
+        got = [len(d["baseInteractions"][k]) for k in ("basePairs", "stackings", "baseRiboseInteractions", "basePhosphateInteractions")]
+        if got != [len(bi.basePairs), len(bi.stackings), len(bi.baseRiboseInteractions), len(bi.basePhosphateInteractions)] or d.get("bpseq") != s2d.bpseq or d.get("dotBracket") != s2d.dotBracket:
+            out.append(viol("cli:json-differs-from-library", "%s (%s): the JSON written by annotator.main differs from the library's Structure2D" % (case["file"], v), got, None))
+    except Exception as exc:  # noqa
+        out.append(viol("cli:json-unreadable", "%s (%s): the JSON written by annotator.main cannot be read: %s" % (case["file"], v, exc)))
+    if open(pb).read().strip() != s2d.bpseq.strip():
+        out.append(viol("cli:bpseq-differs-from-library", "%s (%s): the BPSEQ file differs from the library's BPSEQ" % (case["file"], v), open(pb).read()[:200], s2d.bpseq[:200]))
+    exp_out = s2d.extendedDotBracket if "-e" in case["flags"] else ("\n".join(dbs) if "-a" in case["flags"] else s2d.dotBracket)
+    if buf.getvalue().strip("\n") != exp_out.strip("\n"):
+        out.append(viol("cli:stdout-differs-from-library", "%s (%s, flags %s): annotator.main printed something else than the library's notation" % (case["file"], v, case["flags"]), buf.getvalue()[:300], exp_out[:300]))
+    n = len(want)
+    return dict(nontrivial=n > 0, outcome="cli:%s" % v, violations=out)
+
+
 def families(tier):
     q = tier == "quick"
     return [
+        ("annotator-cli", lambda: cli_cases(tier), 4),
         ("pair-lattice", lambda: (c for k, c in enumerate(fam.g1_pairs("quick")) if k % (2 if q else 1) == 0), 64),
         ("stack-lattice", lambda: (c for k, c in enumerate(fam.g1_stack("quick")) if k % 4 == 0), 64),
         ("G2-three-nucleotides", lambda: iter(fam.g2(tier)), 8),
@@ -136,6 +238,8 @@ def check_writers(s, out):
 def run_case(case):
     from rnapolis.annotator import extract_base_interactions
 
+    if case["g"] == "cli":
+        return run_cli(case)
     out = []
     n = 0
     transitions = states = 0
